@@ -36,7 +36,13 @@ def main():
             sh("git -C %s checkout -- . && git -C %s clean -fdq" % (WT, WT))
             a = sh("git -C %s apply %s" % (WT, os.path.join(d, "patch.diff")))
             if a.returncode:
+                # later fix: commits may have moved the context: fall back to a three-way merge of the patch
+                sh("git -C %s checkout -- . && git -C %s clean -fdq" % (WT, WT))
+                a = sh("git -C %s apply --3way %s" % (WT, os.path.join(d, "patch.diff")))
+                sh("git -C %s reset -q" % WT)
+            if a.returncode:
                 summary.append((sid, pid, "PATCH-DOES-NOT-APPLY", a.stderr.strip()[:200]))
+                print(summary[-1], flush=True)
                 continue
             env = dict(os.environ, PYTHONPATH=WT)
             demo_mut = sh("/venv/bin/python %s" % os.path.join(d, "demo.py"), env=env, timeout=600)
